@@ -17,6 +17,7 @@ CLAIMS = {
  "C06": "Proved: facts about the regenerated label table and the label queue for every slot count 2..10 (= the spec's standard order), none outside; labels on seats (labelsOK/labelClaims), engine labels and next-BB order are evaluated on every opened / settled hand of every run and the model's labels are compared with the engine's.",
  "C07": "Proved for every state of the table model: no open when closed / released / hand unsettled / break / blinds unset (nothing changes then); an open raises the game count by exactly one and goes to playing; the count changes nowhere else; settlement → settled; continue → standby|pausing with per-hand fields reset. Status sequence, count, reset and the closed-table guard (regenerated fact) also monitored on every run.",
  "C08": "Proved: pause iff ShouldPause (break or fewer funded players than the minimum), otherwise the gate is set up with count+1 awaiting exactly the seated-in players with chips; when the guards pass the fire reaches the seat manager and a refusal can only come from there. Progress over real time (2 s gate timer) is observed, not proved; rotation refused with two live players is known finding D16.",
+ "C09": "Proved for every admissible sequence of external calls and internal ReadyGroup steps of any length (Setup only when quiescent, distinct indexes): never fires before everybody signalled unless timed out, at most once per set-up, every fire reports the current set-up's count with exactly its participants all ready, unknown signals change nothing, repeated signals change no flag. Three kernel-checked schedules show the hypotheses are necessary (D13, D18) and one shows a rebuilt all-ready gate fires again (D24). Real OpenGameManager replayed through the model after every call (quiescent regime) + stress regime for the monitors. Partial: syncsaga memory-level races not modelled.",
  "C12": "Proved: the published hand blinds are the BlindState at the open; UpdateBlind / settlement / continue do not touch them; break ⇒ no open, continue pauses, create-on-break starts paused; the single read in startGame is a regenerated fact. Options received by the backend are compared with the blinds at open on every hand of every run.",
  "C17": "Forwarding discipline decided over the whole regenerated manager table (every method: lookup, not-found error, same-named engine method, arguments in order, returns its result; exactly Close/Release delete, after the call); isolation / forwarding / not-found / forgotten-after-close proved for the registry model over an arbitrary engine.",
 }
